@@ -58,6 +58,9 @@ theorem MapObj.Typed_congr {m m' : MapObj} (h3 : m'.kind = m.kind) (h4 : m'.sent
     m'.Typed ↔ m.Typed := by
   unfold MapObj.Typed; rw [h3, h4]
 
+@[simp] theorem MapObj.Typed_cache (m : MapObj) (x : Option Nat) :
+    ({ m with cache := x } : MapObj).Typed ↔ m.Typed := Iff.rfl
+
 theorem MapObj.Typed.of_same {m m' : MapObj} (h : m.Typed) (hs : m'.Same m) : m'.Typed :=
   (MapObj.Typed_congr hs.2.2.1 hs.2.2.2.1).2 h
 
@@ -106,9 +109,9 @@ theorem Kind.typed_plain {dt : DT} {s : Val} (hr : dt.real = true)
 theorem Kind.typed_plain_iff {dt : DT} {s : Val} (h : (Kind.plain dt).typed s) :
     dt.real = true ∧ (s.isBoolV = true ↔ dt = .bool) := by
   cases dt with
-  | bool => exact ⟨rfl, fun _ => rfl, fun _ => h⟩
-  | int b sg => exact ⟨h.1, fun hb => by rw [h.2] at hb; cases hb, fun hd => by cases hd⟩
-  | flt b => exact ⟨h.1, fun hb => by rw [h.2] at hb; cases hb, fun hd => by cases hd⟩
+  | bool => exact ⟨rfl, ⟨fun _ => rfl, fun _ => h⟩⟩
+  | int b sg => exact ⟨h.1, ⟨fun hb => (by rw [h.2] at hb; cases hb), fun hd => (by cases hd)⟩⟩
+  | flt b => exact ⟨h.1, ⟨fun hb => (by rw [h.2] at hb; cases hb), fun hd => (by cases hd)⟩⟩
 
 /-- `check_sentinel` returns a sentinel of the type of the cell -/
 theorem checkSentinel_typed {dt : DT} {s : Option Val} {v : Val} (h : checkSentinel dt s = .ok v) :
@@ -116,7 +119,7 @@ theorem checkSentinel_typed {dt : DT} {s : Option Val} {v : Val} (h : checkSenti
   by_cases hd : dt = .bool
   · exact ⟨fun _ => hd, fun _ => WFApi.checkSentinel_isBoolV h hd⟩
   · have := WFApi.checkSentinel_notBool h hd
-    exact ⟨fun hb => by rw [this] at hb; cases hb, fun h => absurd h hd⟩
+    exact ⟨fun hb => (by rw [this] at hb; cases hb), fun h' => absurd h' hd⟩
 
 theorem defaultSentinel_typed (dt : DT) : dt.defaultSentinel.isBoolV = true ↔ dt = .bool :=
   checkSentinel_typed (s := none) rfl
@@ -129,5 +132,1089 @@ theorem auxDT_real {dt : DT} (h : dt.real = true) : (auxDT dt).real = true := by
 
 theorem auxDT_ne_bool (dt : DT) : auxDT dt ≠ .bool := by
   cases dt <;> simp [auxDT]
+
+/-! ### map-level: `Typed` through the API -/
+
+theorem Typed.apiMakeEmpty {covord spord : Nat} {kind : Kind} {sentinel : Option Val}
+    {covPix : List Nat} {m : MapObj} (hreal : kind.realK)
+    (h : HS.apiMakeEmpty covord spord kind sentinel covPix = .ok m) : m.Typed := by
+  unfold HS.apiMakeEmpty at h
+  simp only [bind, Except.bind, pure, Except.pure, throw, throwThe, MonadExceptOf.throw] at h
+  repeat' xpeel h
+  all_goals cases h
+  · rfl
+  · rfl
+  · -- packed
+    rename_i v hv _ hne
+    exact WFApi.checkSentinel_isBoolV hv rfl
+  · -- plain
+    rename_i dt _ v hv
+    exact Kind.typed_plain hreal (checkSentinel_typed hv)
+  · -- record
+    rename_i fs pr _ dt hget _ v hv
+    refine ⟨hreal, fun dt' hget' => ?_⟩
+    rw [hget] at hget'
+    cases hget'
+    exact checkSentinel_typed hv
+
+theorem Typed.apiUpdate {m m' : MapObj} {op : String} {pix : List Nat} {vals : Option (List Val)}
+    {single : Bool} {ru : Option Bool} (h : m.Typed)
+    (hr : HS.apiUpdate m op pix vals single ru = .ok m') : m'.Typed := by
+  obtain ⟨_, _, h3, h4, _⟩ := WFApi.apiUpdate_ok hr
+  exact (MapObj.Typed_congr h3 h4).2 h
+
+theorem Typed.apiUpdateRanges {m m' : MapObj} {op : String} {R : List (Nat × Nat)} {val : Option Val}
+    {sl : Bool} (h : m.Typed) (hr : HS.apiUpdateRanges m op R val sl = .ok m') : m'.Typed := by
+  obtain ⟨_, _, h3, h4, _⟩ := WFApi.apiUpdateRanges_ok hr
+  exact (MapObj.Typed_congr h3 h4).2 h
+
+theorem Typed.apiSetBits {m m' : MapObj} {pix bits : List Nat} {clear : Bool} (h : m.Typed)
+    (hr : HS.apiSetBits m pix bits clear = .ok m') : m'.Typed := by
+  obtain ⟨op, vals, hu⟩ := WFApi.apiSetBits_ok hr
+  exact Typed.apiUpdate h hu
+
+theorem Typed.apiAstype {m m' : MapObj} {dst : DT} {sentinel : Option Val} (hd : dst.real = true)
+    (hr : HS.apiAstype m dst sentinel = .ok m') : m'.Typed := by
+  obtain ⟨_, _, _, h3, h4, _⟩ := WFApi.apiAstype_ok hr
+  unfold MapObj.Typed
+  rw [h3]
+  exact Kind.typed_plain hd (checkSentinel_typed h4)
+
+theorem Typed.apiAsBitPacked {m m' : MapObj} (h : m.Typed) (hr : HS.apiAsBitPacked m = .ok m') :
+    m'.Typed := by
+  obtain ⟨_, _, _, _, h3⟩ := WFApi.apiAsBitPacked_ok hr
+  rcases h3 with ⟨_, h3, h4, _⟩ | ⟨h3, h4, _⟩
+  · exact (MapObj.Typed_congr h3 h4).2 h
+  · unfold MapObj.Typed; rw [h3, h4]; rfl
+
+theorem typed_field {m : MapObj} {fs : List DT} {pr i : Nat} {dt : DT} (h : m.Typed)
+    (hk : m.kind = .recd fs pr) (hi : fs[i]? = some dt) :
+    dt.real = true ∧ (i = pr → (m.sent.isBoolV = true ↔ dt = .bool)) := by
+  unfold MapObj.Typed at h
+  rw [hk] at h
+  refine ⟨h.1 dt (List.mem_of_getElem? hi), fun e => ?_⟩
+  subst e
+  exact h.2 dt hi
+
+theorem Typed.singleSentinel {m : MapObj} {i : Nat} {sentinel : Option Val} {dt : DT} {s : Val}
+    (h : m.Typed) (hs : HS.singleSentinel m i sentinel = .ok (dt, s)) : (Kind.plain dt).typed s := by
+  obtain ⟨fs, pr, hk, hi, hc⟩ := WFApi.singleSentinel_ok hs
+  obtain ⟨hr, hp⟩ := typed_field h hk hi
+  rcases hc with ⟨e, rfl⟩ | ⟨_, hc⟩
+  · exact Kind.typed_plain hr (hp e)
+  · exact Kind.typed_plain hr (checkSentinel_typed hc)
+
+theorem Typed.apiGetSingleCopy {m m' : MapObj} {i : Nat} {sentinel : Option Val} (h : m.Typed)
+    (hr : HS.apiGetSingleCopy m i sentinel = .ok m') : m'.Typed := by
+  obtain ⟨dt, hs, _, _, h3, _⟩ := WFApi.apiGetSingleCopy_ok hr
+  unfold MapObj.Typed
+  rw [h3]
+  exact Typed.singleSentinel h hs
+
+/-- a materialised view whose sentinel is the parent's blank field (what `World.get?` checks) and
+    whose field is not boolean -/
+theorem Typed.materializeView {p : MapObj} {pn : String} {i : Nat} {sent : Val}
+    {cache : Option Nat} {v : MapObj} (hp : p.Typed)
+    (hm : HS.materializeView p pn i sent cache = .ok v) (hs : sent = viewBlank p i)
+    (hnb : v.kind ≠ .plain .bool) : v.Typed := by
+  obtain ⟨dt, s, hss, _, _, h3, h4, _⟩ := WFApi.materializeView_ok hm
+  obtain ⟨fs, pr, hk, hi, _⟩ := WFApi.singleSentinel_ok hss
+  obtain ⟨hr, _⟩ := typed_field hp hk hi
+  unfold MapObj.Typed
+  rw [h3, h4, hs]
+  have hnum : (viewBlank p i).isBoolV = false := by
+    unfold viewBlank MapObj.vc
+    rw [hk]
+    rfl
+  have hdt : dt ≠ .bool := fun e => hnb (by rw [h3, e])
+  exact Kind.typed_plain hr ⟨fun hb => (by rw [hnum] at hb; cases hb), fun e => absurd e hdt⟩
+
+theorem Typed.apiUpgrade {m m' : MapObj} {ordOut : Nat} (h : m.Typed)
+    (hr : HS.apiUpgrade m ordOut = .ok m') : m'.Typed := by
+  revert m'
+  show OkP MapObj.Typed (HS.apiUpgrade m ordOut)
+  unfold HS.apiUpgrade
+  okp
+  exact h
+
+/-! #### degrade -/
+
+theorem typed_recd_aux {fs : List DT} {pr : Nat} {s : Val} (h : (Kind.recd fs pr).typed s) :
+    (Kind.recd (fs.map auxDT) pr).typed (auxDT (fs.getD pr (.flt 64))).defaultSentinel := by
+  refine ⟨?_, ?_⟩
+  · intro dt hdt
+    obtain ⟨d, hd, rfl⟩ := List.mem_map.1 hdt
+    exact auxDT_real (h.1 d hd)
+  · intro dt hget
+    rw [List.getElem?_map] at hget
+    cases hg : fs[pr]? with
+    | none => rw [hg] at hget; cases hget
+    | some d =>
+      rw [hg] at hget
+      cases hget
+      constructor
+      · intro hb
+        have := (defaultSentinel_typed (auxDT (fs.getD pr (.flt 64)))).1 hb
+        exact absurd this (auxDT_ne_bool _)
+      · intro e; exact absurd e (auxDT_ne_bool _)
+
+theorem typed_plain_flt {dt : DT} (hr : dt.real = true) (_hne : dt ≠ .bool) :
+    (Kind.plain dt).typed dt.defaultSentinel :=
+  Kind.typed_plain hr (defaultSentinel_typed dt)
+
+theorem typed_plain_dtOut (c : Prop) [Decidable c] {dt : DT} (hr : dt.real = true) :
+    (Kind.plain (if c then DT.flt 64 else auxDT dt)).typed
+      (if c then DT.flt 64 else auxDT dt).defaultSentinel := by
+  split
+  · exact typed_plain_flt rfl (by simp)
+  · exact typed_plain_flt (auxDT_real hr) (auxDT_ne_bool _)
+
+theorem typed_recd_leaf {m : MapObj} {fs : List DT} {pr : Nat} (h : m.Typed)
+    (hk : m.kind = .recd fs pr) :
+    (Kind.recd (fs.map auxDT) pr).typed (auxDT (fs.getD pr (.flt 64))).defaultSentinel := by
+  unfold MapObj.Typed at h; rw [hk] at h
+  exact typed_recd_aux h
+
+theorem typed_plain_leaf (c : Prop) [Decidable c] {m : MapObj} {dt : DT} (h : m.Typed)
+    (hk : m.kind = .plain dt) :
+    (Kind.plain (if c then DT.flt 64 else auxDT dt)).typed
+      (if c then DT.flt 64 else auxDT dt).defaultSentinel := by
+  unfold MapObj.Typed at h; rw [hk] at h
+  exact typed_plain_dtOut c (Kind.typed_plain_iff h).1
+
+theorem Typed.apiDegradeCore {m : MapObj} (h : m.Typed) (ordOut : Nat) (red : String)
+    (w : Option MapObj) : OkP MapObj.Typed (HS.apiDegradeCore m ordOut red w) := by
+  unfold HS.apiDegradeCore
+  okp
+  all_goals first
+    | exact h
+    | exact typed_recd_leaf h ‹_›
+    | exact typed_plain_leaf _ h ‹_›
+
+theorem Typed.rehouse {m m' : MapObj} {co : Nat} (h : m.Typed) (hr : HS.rehouse m co = .ok m') :
+    m'.Typed := by
+  revert m'
+  show OkP MapObj.Typed (HS.rehouse m co)
+  unfold HS.rehouse
+  refine OkP.bind (Q := MapObj.Typed) (fun e he => Typed.apiMakeEmpty (Kind.typed.realK h) he) ?_
+  intro e he
+  split
+  · exact OkP.of_throw _
+  · exact fun m' hm' => Typed.apiUpdate he hm'
+
+theorem Typed.apiDegrade {m m' : MapObj} {ordOut : Nat} {red : String} {w : Option MapObj}
+    (h : m.Typed) (hr : HS.apiDegrade m ordOut red w = .ok m') : m'.Typed := by
+  revert m'
+  show OkP MapObj.Typed (HS.apiDegrade m ordOut red w)
+  unfold HS.apiDegrade
+  okp
+  · refine OkP.bind (Q := MapObj.Typed) (fun e he => Typed.rehouse h he) ?_
+    intro m1 hm1
+    extract_lets jp
+    refine OkP.bind (Q := fun _ => True) (fun _ _ => trivial) ?_
+    intro w' _
+    exact Typed.apiDegradeCore hm1 ordOut red w'
+  · refine OkP.bind (Q := MapObj.Typed) (fun e he => Typed.rehouse h he) ?_
+    intro m1 hm1
+    extract_lets jp
+    refine OkP.bind (Q := fun _ => True) (fun _ _ => trivial) ?_
+    intro w' _
+    exact Typed.apiDegradeCore hm1 ordOut red w'
+  · exact h
+  · exact Typed.apiDegradeCore h ordOut red w
+
+/-! #### HEALPix interchange -/
+
+theorem Typed.apiFromHealpix {covord spord : Nat} {dt : DT} {sentinel : Option Val} {hp : List Val}
+    {b : Bool} {m' : MapObj} (hd : dt.real = true)
+    (hr : HS.apiFromHealpix covord spord dt sentinel hp b = .ok m') : m'.Typed := by
+  revert m'
+  show OkP MapObj.Typed (HS.apiFromHealpix covord spord dt sentinel hp b)
+  unfold HS.apiFromHealpix
+  okp
+  refine OkP.bind (Q := fun v => v.isBoolV = true ↔ dt = .bool) (fun v hv => checkSentinel_typed hv) ?_
+  intro sent hs
+  apply OkP.of_pure
+  exact Kind.typed_plain hd hs
+
+theorem Typed.apiReadHealpix {f : HpFile} {covord : Nat} {r2n : Option (Array Nat)} {m' : MapObj}
+    (hf : f.dt.real = true) (hr : HS.apiReadHealpix f covord r2n = .ok m') : m'.Typed := by
+  revert m'
+  show OkP MapObj.Typed (HS.apiReadHealpix f covord r2n)
+  unfold HS.apiReadHealpix
+  okp
+  · refine OkP.bind (Q := MapObj.Typed) (fun e he => Typed.apiMakeEmpty (kind := .plain _) hf he) ?_
+    exact fun e he m' hm' => Typed.apiUpdate he hm'
+  · exact fun _ h => Typed.apiFromHealpix hf h
+  · exact fun _ h => Typed.apiFromHealpix hf h
+
+theorem Typed.apiWriteHealpix {m : MapObj} {f : HpFile} (h : m.Typed)
+    (hr : HS.apiWriteHealpix m = .ok f) : f.dt.real = true := by
+  revert f
+  show OkP (fun f => f.dt.real = true) (HS.apiWriteHealpix m)
+  unfold HS.apiWriteHealpix
+  okp
+  all_goals first
+    | rfl
+    | (have := h; unfold MapObj.Typed at this
+       rw [‹m.kind = _›] at this
+       exact (Kind.typed_plain_iff this).1)
+
+/-! #### union / intersection operations -/
+
+/-- a real dtype with a NON-boolean sentinel: typed unless the dtype is boolean — used where the
+    dtype comes from `parseDTCode` of a float `dtype_out` -/
+theorem typed_numeric_sent {d : DT} {s : Val} (hr : d.real = true) (hs : s.isBoolV = false)
+    (hd : d ≠ .bool) : (Kind.plain d).typed s :=
+  Kind.typed_plain hr ⟨fun hb => (by rw [hs] at hb; cases hb), fun e => absurd e hd⟩
+
+
+theorem kind_code_b1 {k : Kind} (h1 : k.code ≠ "b1") (h2 : k.code ≠ "rec") :
+    (∃ dt, k = .plain dt ∧ dt ≠ .bool) ∨ ∃ n, k = .wide n := by
+  cases k with
+  | packed => exact absurd rfl h1
+  | recd fs pr => exact absurd rfl h2
+  | wide n => exact .inr ⟨n, rfl⟩
+  | plain dt =>
+    refine .inl ⟨dt, rfl, ?_⟩
+    intro e; subst e; exact h1 rfl
+
+/-- the result of a union / intersection operation is typed, provided a float64 result
+    (`dtype_out`) is only requested for a numeric or wide-mask first map — which the dispatch on
+    the first map's dtype code guarantees (the operation table has no boolean or record rows) -/
+theorem Typed.apiMultiOp {row : OpRow} {maps : List MapObj} {m' : MapObj}
+    (h : ∀ m ∈ maps, m.Typed)
+    (hnb : parseDTCode row.dtypeOut ≠ some .bool)
+    (hrow : ∀ d, parseDTCode row.dtypeOut = some d →
+      ∀ first ∈ maps.head?, first.kind.code ≠ "b1" ∧ first.kind.code ≠ "rec")
+    (hr : HS.apiMultiOp row maps = .ok m') : m'.Typed := by
+  obtain ⟨first, rest, rfl, _, _, h3, _, hcase⟩ := WFApi.apiMultiOp_ok hr
+  have hf : first.Typed := h first List.mem_cons_self
+  rcases hcase with ⟨hk, _, _⟩ | ⟨hk, _, _⟩
+  · exact (MapObj.Typed_congr hk h3).2 hf
+  · unfold MapObj.Typed
+    rw [hk, h3]
+    unfold multiKindOut
+    split
+    · rename_i d hd
+      obtain ⟨c1, c2⟩ := hrow d hd first rfl
+      have hdr := parseDTCode_real hd
+      have hdb : d ≠ .bool := fun e => hnb (by rw [hd, e])
+      unfold MapObj.Typed at hf
+      rcases kind_code_b1 c1 c2 with ⟨dt, e, hne⟩ | ⟨n, e⟩
+      · rw [e] at hf
+        have hnb : first.sent.isBoolV = false := by
+          cases hb : first.sent.isBoolV with
+          | false => rfl
+          | true => exact absurd ((Kind.typed_plain_iff hf).2.1 hb) hne
+        exact typed_numeric_sent hdr hnb hdb
+      · rw [e] at hf
+        exact typed_numeric_sent hdr hf hdb
+    · rename_i hp _
+      unfold MapObj.Typed at hf
+      rw [hp] at hf
+      exact hf
+    · exact hf
+
+/-! ### files -/
+
+theorem Typed.apiWrite {m : MapObj} (md : List (String × String)) (h : m.Typed) :
+    (HS.apiWrite m md).Typed := by
+  intro k hk
+  rw [(fileKind_apiWrite_iff m md).2 h.fileTyped] at hk
+  cases hk
+  exact h
+
+theorem Typed.apiRead {f : FileObj} {pixels : Option (List Nat)} {m : MapObj} (hf : f.Typed)
+    (h : HS.apiRead f pixels = .ok m) : m.Typed := by
+  obtain ⟨kind, hk, _, _, h3, h4, _⟩ := apiRead_ok h
+  unfold MapObj.Typed
+  rw [h3, h4]
+  exact hf kind hk
+
+theorem Typed.apiCat {files : List FileObj} {covordOut : Option Nat} {co oo : Bool} {fo : FileObj}
+    (hf : ∀ f ∈ files, f.Typed) (h : HS.apiCat files covordOut co oo = .ok fo) : fo.Typed := by
+  obtain ⟨f0, rest, kind, st, rfl, _, hk, _, _, rfl⟩ := apiCat_ok h
+  apply Typed.apiWrite
+  exact hf f0 List.mem_cons_self kind hk
+
+/-! #### degrade-on-read -/
+
+theorem typed_mk_plain_keep {dt0 : DT} {s : Val} (h : (Kind.plain dt0).typed s) :
+    Kind.typed (if (dt0 == .bool) = true then Kind.plain .bool else Kind.plain dt0) s := by
+  cases dt0 <;> exact h
+
+theorem typed_mk_plain_aux {dt0 : DT} {s : Val} (h : (Kind.plain dt0).typed s) :
+    Kind.typed (.plain (auxDT (if (dt0 == .bool) = true then DT.int 16 true else dt0)))
+      (auxDT (if (dt0 == .bool) = true then DT.int 16 true else dt0)).defaultSentinel := by
+  have hr : (if (dt0 == .bool) = true then DT.int 16 true else dt0).real = true := by
+    cases dt0 with
+    | bool => rfl
+    | int b sg => exact h.1
+    | flt b => exact h.1
+  exact typed_plain_flt (auxDT_real hr) (auxDT_ne_bool _)
+
+set_option hygiene false in
+local macro "tdor_leafs" : tactic => `(tactic| (
+  split at h
+  · cases h
+    first
+    | exact hf _ hk
+    | exact typed_recd_aux (hf _ hk)
+    | exact typed_mk_plain_keep (hf _ hk)
+    | exact typed_mk_plain_aux (hf _ hk)
+  · cases h))
+
+set_option hygiene false in
+local macro "tdor_guards" : tactic => `(tactic| repeat (is_guard_hyp; obtain ⟨_, h⟩ := ite_err_ok h))
+
+set_option hygiene false in
+local macro "tdor_if" : tactic => `(tactic| (
+  rcases ite_ok_inv h with ⟨hc, h⟩ | ⟨hc, h⟩ <;>
+    first | (cases hc; done) | (exact absurd rfl hc) | (exact absurd trivial hc) | skip))
+
+set_option hygiene false in
+local macro "tdor_kind" : tactic => `(tactic| (
+  generalize hk : fileKind _ = ok at h
+  cases ok with
+  | none => cases h
+  | some k =>
+    tdor_if
+    tdor_guards
+    cases k with
+    | packed => first | cases h | (dsimp only at h; cases h)
+    | wide n =>
+      try dsimp only at h
+      tdor_guards
+      tdor_leafs
+    | recd fs pr =>
+      try dsimp only at h
+      tdor_guards
+      try dsimp only at h
+      tdor_leafs
+    | plain dt0 =>
+      try dsimp only at h
+      obtain ⟨_, h⟩ | ⟨_, h⟩ := ite_ok_inv h
+      · tdor_leafs
+      · tdor_guards
+        try dsimp only at h
+        tdor_leafs))
+
+/-- degrade-on-read of a typed file gives a typed map (the walk of `KindOk.apiDegradeOnRead`,
+    Lemmas/WFWorld.lean, with the typing leaves) -/
+theorem Typed.apiDegradeOnRead {f : FileObj} {ordOut : Nat} {red : String}
+    {pixels : Option (List Nat)} {wf : Option FileObj} {m : MapObj} (hf : f.Typed)
+    (h : HS.apiDegradeOnRead f ordOut red pixels wf = .ok m) : m.Typed := by
+  unfold HS.apiDegradeOnRead at h
+  simp only [bind, Except.bind, pure, Except.pure, throw, throwThe, MonadExceptOf.throw] at h
+  generalize hpx : dorPixels _ _ _ = opx at h
+  cases opx with
+  | none => cases h
+  | some px =>
+    cases wf with
+    | none =>
+      dsimp only at h
+      tdor_guards
+      tdor_if
+      tdor_guards
+      tdor_kind
+    | some w =>
+      dsimp only at h
+      obtain ⟨_, h⟩ | ⟨_, h⟩ := ite_ok_inv h
+      · tdor_guards
+        tdor_if
+        tdor_guards
+        tdor_kind
+      · tdor_guards
+        tdor_if
+        tdor_guards
+        tdor_kind
+
+/-! ### storing and looking up -/
+
+theorem World.Typed.bind {w : World} (hw : w.Typed) (r : String) {m : MapObj} (hm : m.Typed) :
+    (w.bind r m).Typed := by
+  refine ⟨?_, hw.2.1, hw.2.2⟩
+  intro e he hev
+  rcases List.mem_cons.1 he with rfl | he
+  · exact hm
+  · exact hw.1 e (List.mem_filter.1 he).1 hev
+
+/-- `World.put`, both branches: a store through a view name re-stores the descriptor (not
+    constrained) and the parent with its own kind and sentinel -/
+theorem World.Typed.put {w : World} (hw : w.Typed) (n : String) {m : MapObj} (hm : m.Typed) :
+    (w.put n m).Typed := by
+  unfold World.put
+  split
+  · rename_i pn i x h1 h2
+    split
+    · rename_i p hp
+      refine ⟨?_, hw.2.1, hw.2.2⟩
+      intro e he hev
+      rcases List.mem_cons.1 he with rfl | he
+      · rw [show ({ m with st := ⟨#[], #[]⟩ } : MapObj).view = m.view from rfl, h2] at hev
+        cases hev
+      · rcases List.mem_cons.1 he with rfl | he
+        · obtain ⟨e', he', _, rfl⟩ := World.raw?_mem hp
+          exact hw.1 e' he' hev
+        · exact hw.1 e (List.mem_filter.1 he).1 hev
+    · exact hw
+  · exact hw.bind n hm
+
+/-- registering a view descriptor: not constrained -/
+theorem World.Typed.register {w : World} (hw : w.Typed) (r : String) {d : MapObj}
+    (hv : d.view ≠ none) : ({ w with pool := (r, d) :: w.pool.filter (·.1 != r) } : World).Typed := by
+  refine ⟨?_, hw.2.1, hw.2.2⟩
+  intro e he hev
+  rcases List.mem_cons.1 he with rfl | he
+  · exact absurd hev hv
+  · exact hw.1 e (List.mem_filter.1 he).1 hev
+
+theorem World.Typed.files_insert {w : World} (hw : w.Typed) (n : String) {fo : FileObj}
+    (hfo : fo.Typed) : ({ w with files := (n, fo) :: w.files.filter (·.1 != n) } : World).Typed := by
+  refine ⟨hw.1, ?_, hw.2.2⟩
+  intro e he
+  rcases List.mem_cons.1 he with rfl | he
+  · exact hfo
+  · exact hw.2.1 e (List.mem_filter.1 he).1
+
+theorem World.Typed.file_find {w : World} (hw : w.Typed) {n : String} {fo : FileObj}
+    (hf : (w.files.find? (·.1 == n)).map (·.2) = some fo) : fo.Typed := by
+  cases hfind : w.files.find? (·.1 == n) with
+  | none => rw [hfind] at hf; cases hf
+  | some e =>
+    rw [hfind] at hf
+    cases hf
+    exact hw.2.1 e (List.mem_of_find?_eq_some hfind)
+
+theorem World.Typed.hp_insert {w : World} (hw : w.Typed) (n : String) {f : HpFile}
+    (hf : f.dt.real = true) :
+    ({ w with hpfiles := (n, f) :: w.hpfiles.filter (·.1 != n) } : World).Typed := by
+  refine ⟨hw.1, hw.2.1, ?_⟩
+  intro e he
+  rcases List.mem_cons.1 he with rfl | he
+  · exact hf
+  · exact hw.2.2 e (List.mem_filter.1 he).1
+
+theorem World.Typed.hp_find {w : World} (hw : w.Typed) {n : String} {f : HpFile}
+    (hf : (w.hpfiles.find? (·.1 == n)).map (·.2) = some f) : f.dt.real = true := by
+  cases hfind : w.hpfiles.find? (·.1 == n) with
+  | none => rw [hfind] at hf; cases hf
+  | some e =>
+    rw [hfind] at hf
+    cases hf
+    exact hw.2.2 e (List.mem_of_find?_eq_some hfind)
+
+/-- the other components of the world play no role -/
+theorem World.Typed.with_metas {w : World} (hw : w.Typed)
+    (ms : List (String × List (String × String))) : ({ w with metas := ms } : World).Typed := hw
+
+theorem World.Typed.with_mocs {w : World} (hw : w.Typed) (ms : List (String × List Nat)) :
+    ({ w with mocs := ms } : World).Typed := hw
+
+/-- **whatever `World.get?` answers in a good typed world is typed**: an owning entry by the
+    invariant; a view because its parent is an owning record entry (`World.Good`), its field
+    dtype is one of the parent's, and `get?` has checked its sentinel against the parent's blank
+    field (a number) and its dtype against `bool` -/
+theorem World.Typed.get {w : World} (hg : w.Good) (hw : w.Typed) {n : String} {v : MapObj}
+    (h : w.get? n = some v) : v.Typed := by
+  rcases World.get?_cases h with ⟨hr, hv⟩ | ⟨d, pn, i, p, hd, hdv, hp, hs, hm, hk, hnb⟩
+  · obtain ⟨e, he, _, rfl⟩ := World.raw?_mem hr
+    exact hw.1 e he hv
+  · obtain ⟨e, he, _, rfl⟩ := World.raw?_mem hp
+    have hrec := materializeView_parent_recd hm
+    have hpv : e.2.view = none := by
+      cases hv : e.2.view with
+      | none => rfl
+      | some x =>
+        have := hg.2.1 e he (by rw [hv]; exact fun h => nomatch h)
+        rw [this] at hrec; cases hrec
+    exact Typed.materializeView (hw.1 e he hpv) hm hs (by rw [hk]; exact hnb)
+
+theorem typed_withMap {w : World} {a : Args} {k : MapObj → World × String} (hg : w.Good)
+    (hw : w.Typed)
+    (hk : ∀ n m, a.pos.headD "" = n → w.get? n = some m → m.Ok → m.Typed → (k m).1.Typed) :
+    (withMap w a k).1.Typed := by
+  unfold withMap
+  split
+  · rename_i n rest hpos
+    split
+    · rename_i m hm
+      exact hk n m (by rw [hpos]; rfl) hm (hg.get hm) (hw.get hg hm)
+    · exact hw
+  · exact hw
+
+/-! ### parsers only yield real dtypes -/
+
+theorem bind_parseDT_real {o : Option String} {dt : DT} (h : o.bind parseDT = some dt) :
+    dt.real = true := by
+  cases o with
+  | none => cases h
+  | some t => exact parseDT_real h
+
+theorem mapM_parseDT_real : ∀ {l : List String} {fs : List DT}, l.mapM parseDT = some fs →
+    ∀ dt ∈ fs, dt.real = true
+  | [], fs, h => by
+    simp only [List.mapM_nil] at h
+    cases h
+    intro dt hdt; cases hdt
+  | t :: ts, fs, h => by
+    rw [List.mapM_cons] at h
+    cases h1 : parseDT t with
+    | none => rw [h1] at h; cases h
+    | some d =>
+      cases h2 : ts.mapM parseDT with
+      | none => rw [h1, h2] at h; cases h
+      | some ds =>
+        rw [h1, h2] at h
+        cases h
+        intro dt hdt
+        rcases List.mem_cons.1 hdt with rfl | hdt
+        · exact parseDT_real h1
+        · exact mapM_parseDT_real h2 dt hdt
+
+theorem parseKind_realK {a : Args} {k : Kind} (h : parseKind a = some k) : k.realK := by
+  unfold parseKind at h
+  split at h
+  · cases hd : (a.get? "dtype").bind parseDT with
+    | none => rw [hd] at h; cases h
+    | some dt => rw [hd] at h; cases h; exact bind_parseDT_real hd
+  · cases h; trivial
+  · cases hn : a.nat? "maxbits" with
+    | none => rw [hn] at h; cases h
+    | some mb => rw [hn] at h; cases h; trivial
+  · cases hf : (splitList (a.getD "fields" "")).mapM parseDT with
+    | none => simp [hf] at h
+    | some fs =>
+      cases hp : a.nat? "primary" with
+      | none => simp [hf, hp] at h
+      | some pr =>
+        simp [hf, hp] at h
+        cases h
+        exact mapM_parseDT_real hf
+  · cases h
+
+/-! ### the operations of Model/Dispatch.lean -/
+
+set_option hygiene false in
+/-- close a leaf `(w.bind r m').Typed` / `(w.put n m').Typed` / a file insertion -/
+macro "typed_leaf" : tactic => `(tactic| first
+  | exact hw
+  | exact hw.bind _ hm
+  | exact hw.put _ hm
+  | exact hw.put _ (Typed.apiUpdate hm ‹_›)
+  | exact hw.put _ (Typed.apiUpdateRanges hm ‹_›)
+  | exact hw.put _ (Typed.apiSetBits hm ‹_›)
+  | exact hw.bind _ (Typed.apiMakeEmpty (parseKind_realK ‹_›) ‹_›)
+  | exact hw.bind _ (Typed.apiAstype (bind_parseDT_real ‹_›) ‹_›)
+  | exact hw.bind _ (Typed.apiAsBitPacked hm ‹_›)
+  | exact (hw.bind _ (Typed.apiAsBitPacked hm ‹_›)).with_metas _
+  | exact hw.bind _ (Typed.apiGetSingleCopy hm ‹_›)
+  | exact hw.bind _ (Typed.apiDegrade hm ‹_›)
+  | exact hw.bind _ (Typed.apiUpgrade hm ‹_›)
+  | exact hw.bind _ (Typed.apiFromHealpix (bind_parseDT_real ‹_›) ‹_›)
+  | exact hw.bind _ (Typed.apiReadHealpix (hw.hp_find ‹_›) ‹_›)
+  | exact hw.bind _ (Typed.apiRead (hw.file_find ‹_›) ‹_›)
+  | exact (hw.bind _ (Typed.apiRead (hw.file_find ‹_›) ‹_›)).with_metas _
+  | exact hw.bind _ (Typed.apiDegradeOnRead (hw.file_find ‹_›) ‹_›)
+  | exact (hw.bind _ (Typed.apiDegradeOnRead (hw.file_find ‹_›) ‹_›)).with_metas _
+  | exact hw.files_insert _ (Typed.apiWrite _ hm)
+  | exact hw.hp_insert _ (Typed.apiWriteHealpix hm ‹_›)
+  | exact hw.hp_insert _ (bind_parseDT_real ‹_›)
+  | exact hw.bind _ ((MapObj.Typed_cache _ _).2 (Typed.apiReadHealpix (hw.hp_find ‹_›) ‹_›))
+  | exact hw.bind _ ((MapObj.Typed_cache _ _).2
+      (Typed.apiDegrade (Typed.apiReadHealpix (hw.hp_find ‹_›) ‹_›) ‹_›))
+  | exact hw.bind _ (show Kind.typed (.plain (.flt 64)) (.num 0 0) from ⟨rfl, rfl⟩)
+  | exact hw.register _ (Option.some_ne_none _))
+
+theorem Typed.opCfg {w : World} (hg : w.Good) (hw : w.Typed) (a : Args) : (HS.opCfg w a).1.Typed := by
+  unfold HS.opCfg
+  op_split
+  all_goals typed_leaf
+
+theorem opsTable_no_bool_rec :
+    opsTable.all (fun r => r.dt != "b1" && r.dt != "rec") = true := by decide +kernel
+
+theorem withSpec_of_ufunc {r : OpRow}
+    (h : (r.name == "ufunc_union" || r.name == "ufunc_intersection") = true) : r.withSpec = r := by
+  have : r.name = "ufunc_union" ∨ r.name = "ufunc_intersection" := by simpa using h
+  unfold OpRow.withSpec
+  rcases this with e | e <;> rw [e] <;> rfl
+
+theorem Typed.opMop {w : World} (hg : w.Good) (hw : w.Typed) (a : Args) : (HS.opMop w a).1.Typed := by
+  unfold HS.opMop
+  op_split
+  rename_i _ maps hmaps _ row hrow _ v hv
+  have hall : ∀ m ∈ maps, m.Typed := by
+    intro m hm
+    obtain ⟨n, _, hn⟩ := mem_of_mapM_some _ _ _ hmaps m hm
+    exact hw.get hg hn
+  have hd : parseDTCode row.dtypeOut ≠ some .bool := by
+    split at hrow
+    · cases hf : (a.get? "filler").bind parseVal with
+      | none => rw [hf] at hrow; cases hrow
+      | some fv =>
+        rw [hf] at hrow
+        cases hrow
+        intro h; cases h
+    · have hmem := List.mem_of_find?_eq_some hrow
+      have := List.all_eq_true.1 opsTable_dtypeOut row hmem
+      simpa using this
+  refine hw.bind _ (Typed.apiMultiOp hall (withSpec_dtypeOut row hd) ?_ hv)
+  intro d hdd first hfirst
+  split at hrow
+  · rename_i hcond
+    cases hf : (a.get? "filler").bind parseVal with
+    | none => rw [hf] at hrow; cases hrow
+    | some fv =>
+      rw [hf] at hrow
+      cases hrow
+      rw [withSpec_of_ufunc hcond] at hdd
+      change parseDTCode "" = some d at hdd
+      rw [show parseDTCode "" = none from by decide] at hdd
+      cases hdd
+  · have hmem := List.mem_of_find?_eq_some hrow
+    have hb := List.find?_some hrow
+    have ht := List.all_eq_true.1 opsTable_no_bool_rec row hmem
+    simp only [Bool.and_eq_true, bne_iff_ne, ne_eq, beq_iff_eq] at ht hb
+    have hc : row.dt = first.kind.code := by
+      rw [hb.2]
+      cases maps with
+      | nil => cases hfirst
+      | cons m ms => cases hfirst; rfl
+    rw [hc] at ht
+    exact ht
+
+theorem Typed.opMocread {w : World} (hg : w.Good) (hw : w.Typed) (a : Args) : (HS.opMocread w a).1.Typed := by
+  unfold HS.opMocread
+  op_split
+  all_goals
+    rename_i e he _ v hv
+    exact hw.bind _ ((MapObj.Typed_cache _ _).2
+      (Typed.apiUpdate (Typed.apiMakeEmpty (kind := .plain .bool) rfl he) hv))
+
+theorem Typed.opRead {w : World} (hg : w.Good) (hw : w.Typed) (a : Args) : (HS.opRead w a).1.Typed := by
+  unfold HS.opRead
+  op_split
+  all_goals typed_leaf
+
+theorem Typed.opDor {w : World} (hg : w.Good) (hw : w.Typed) (a : Args) : (HS.opDor w a).1.Typed := by
+  unfold HS.opDor
+  op_split
+  all_goals typed_leaf
+
+theorem Typed.opFromhp {w : World} (hg : w.Good) (hw : w.Typed) (a : Args) : (HS.opFromhp w a).1.Typed := by
+  unfold HS.opFromhp
+  op_split
+  all_goals typed_leaf
+
+theorem Typed.opHpxread {w : World} (hg : w.Good) (hw : w.Typed) (a : Args) : (HS.opHpxread w a).1.Typed := by
+  unfold HS.opHpxread
+  op_split
+  all_goals typed_leaf
+
+theorem Typed.opCovread {w : World} (hg : w.Good) (hw : w.Typed) (a : Args) : (HS.opCovread w a).1.Typed := by
+  unfold HS.opCovread
+  op_split
+  all_goals typed_leaf
+
+theorem Typed.opFitsraw {w : World} (hg : w.Good) (hw : w.Typed) (a : Args) : (HS.opFitsraw w a).1.Typed := by
+  unfold HS.opFitsraw
+  op_split
+  all_goals typed_leaf
+
+theorem Typed.opCat {w : World} (hg : w.Good) (hw : w.Typed) (a : Args) : (HS.opCat w a).1.Typed := by
+  unfold HS.opCat
+  op_split
+  all_goals
+    rename_i _ fs hfs _ fo hfo
+    refine hw.files_insert _ (Typed.apiCat ?_ hfo)
+    intro f hf
+    obtain ⟨n, _, hn⟩ := mem_of_mapM_some _ _ _ hfs f hf
+    exact hw.file_find hn
+
+theorem Typed.opHpximplicit {w : World} (hg : w.Good) (hw : w.Typed) (a : Args) : (HS.opHpximplicit w a).1.Typed := by
+  unfold HS.opHpximplicit
+  op_split
+  all_goals typed_leaf
+
+theorem Typed.opRand {w : World} (hg : w.Good) (hw : w.Typed) (a : Args) : (HS.opRand w a).1.Typed := by
+  unfold HS.opRand
+  op_split
+  all_goals typed_leaf
+
+theorem Typed.opUpd {w : World} (hg : w.Good) (hw : w.Typed) (a : Args) : (HS.opUpd w a).1.Typed := by
+  unfold HS.opUpd
+  refine typed_withMap hg hw fun n m hn hget hok hm => ?_
+  op_split
+  all_goals typed_leaf
+
+theorem Typed.opUpdr {w : World} (hg : w.Good) (hw : w.Typed) (a : Args) : (HS.opUpdr w a).1.Typed := by
+  unfold HS.opUpdr
+  refine typed_withMap hg hw fun n m hn hget hok hm => ?_
+  op_split
+  all_goals typed_leaf
+
+theorem Typed.opMask {w : World} (hg : w.Good) (hw : w.Typed) (a : Args) : (HS.opMask w a).1.Typed := by
+  unfold HS.opMask
+  refine typed_withMap hg hw fun n m hn hget hok hm => ?_
+  op_split
+  all_goals typed_leaf
+
+theorem Typed.opAstype {w : World} (hg : w.Good) (hw : w.Typed) (a : Args) : (HS.opAstype w a).1.Typed := by
+  unfold HS.opAstype
+  refine typed_withMap hg hw fun n m hn hget hok hm => ?_
+  op_split
+  all_goals typed_leaf
+
+theorem Typed.opPack {w : World} (hg : w.Good) (hw : w.Typed) (a : Args) : (HS.opPack w a).1.Typed := by
+  unfold HS.opPack
+  refine typed_withMap hg hw fun n m hn hget hok hm => ?_
+  op_split
+  all_goals typed_leaf
+
+theorem Typed.opBop {w : World} (hg : w.Good) (hw : w.Typed) (a : Args) : (HS.opBop w a).1.Typed := by
+  unfold HS.opBop
+  refine typed_withMap hg hw fun n m hn hget hok hm => ?_
+  op_split
+  all_goals typed_leaf
+
+theorem Typed.opInv {w : World} (hg : w.Good) (hw : w.Typed) (a : Args) : (HS.opInv w a).1.Typed := by
+  unfold HS.opInv
+  refine typed_withMap hg hw fun n m hn hget hok hm => ?_
+  op_split
+  all_goals typed_leaf
+
+theorem Typed.opBits {w : World} (hg : w.Good) (hw : w.Typed) (a : Args) : (HS.opBits w a).1.Typed := by
+  unfold HS.opBits
+  refine typed_withMap hg hw fun n m hn hget hok hm => ?_
+  op_split
+  all_goals typed_leaf
+
+theorem Typed.opCopy {w : World} (hg : w.Good) (hw : w.Typed) (a : Args) : (HS.opCopy w a).1.Typed := by
+  unfold HS.opCopy
+  refine typed_withMap hg hw fun n m hn hget hok hm => ?_
+  op_split
+  all_goals typed_leaf
+
+theorem Typed.opDeg {w : World} (hg : w.Good) (hw : w.Typed) (a : Args) : (HS.opDeg w a).1.Typed := by
+  unfold HS.opDeg
+  refine typed_withMap hg hw fun n m hn hget hok hm => ?_
+  op_split
+  all_goals typed_leaf
+
+theorem Typed.opUpg {w : World} (hg : w.Good) (hw : w.Typed) (a : Args) : (HS.opUpg w a).1.Typed := by
+  unfold HS.opUpg
+  refine typed_withMap hg hw fun n m hn hget hok hm => ?_
+  op_split
+  all_goals typed_leaf
+
+theorem Typed.opSingle {w : World} (hg : w.Good) (hw : w.Typed) (a : Args) : (HS.opSingle w a).1.Typed := by
+  unfold HS.opSingle
+  refine typed_withMap hg hw fun n m hn hget hok hm => ?_
+  op_split
+  all_goals typed_leaf
+
+theorem Typed.opScov {w : World} (hg : w.Good) (hw : w.Typed) (a : Args) : (HS.opScov w a).1.Typed := by
+  unfold HS.opScov
+  refine typed_withMap hg hw fun n m hn hget hok hm => ?_
+  op_split
+  all_goals typed_leaf
+
+theorem Typed.opSet {w : World} (hg : w.Good) (hw : w.Typed) (a : Args) : (HS.opSet w a).1.Typed := by
+  unfold HS.opSet
+  refine typed_withMap hg hw fun n m hn hget hok hm => ?_
+  op_split
+  all_goals typed_leaf
+
+theorem Typed.opFracdet {w : World} (hg : w.Good) (hw : w.Typed) (a : Args) : (HS.opFracdet w a).1.Typed := by
+  unfold HS.opFracdet
+  refine typed_withMap hg hw fun n m hn hget hok hm => ?_
+  op_split
+  all_goals typed_leaf
+
+theorem Typed.opChk {w : World} (hg : w.Good) (hw : w.Typed) (a : Args) : (HS.opChk w a).1.Typed := by
+  unfold HS.opChk
+  refine typed_withMap hg hw fun n m hn hget hok hm => ?_
+  op_split
+  all_goals typed_leaf
+
+theorem Typed.opInfo {w : World} (hg : w.Good) (hw : w.Typed) (a : Args) : (HS.opInfo w a).1.Typed := by
+  unfold HS.opInfo
+  refine typed_withMap hg hw fun n m hn hget hok hm => ?_
+  op_split
+  all_goals typed_leaf
+
+theorem Typed.opMoc {w : World} (hg : w.Good) (hw : w.Typed) (a : Args) : (HS.opMoc w a).1.Typed := by
+  unfold HS.opMoc
+  refine typed_withMap hg hw fun n m hn hget hok hm => ?_
+  op_split
+  all_goals typed_leaf
+
+theorem Typed.opMeta {w : World} (hg : w.Good) (hw : w.Typed) (a : Args) : (HS.opMeta w a).1.Typed := by
+  unfold HS.opMeta
+  refine typed_withMap hg hw fun n m hn hget hok hm => ?_
+  op_split
+  all_goals typed_leaf
+
+theorem Typed.opGetmeta {w : World} (hg : w.Good) (hw : w.Typed) (a : Args) : (HS.opGetmeta w a).1.Typed := by
+  unfold HS.opGetmeta
+  refine typed_withMap hg hw fun n m hn hget hok hm => ?_
+  op_split
+  all_goals typed_leaf
+
+theorem Typed.opWrite {w : World} (hg : w.Good) (hw : w.Typed) (a : Args) : (HS.opWrite w a).1.Typed := by
+  unfold HS.opWrite
+  refine typed_withMap hg hw fun n m hn hget hok hm => ?_
+  op_split
+  all_goals typed_leaf
+
+theorem Typed.opGenhp {w : World} (hg : w.Good) (hw : w.Typed) (a : Args) : (HS.opGenhp w a).1.Typed := by
+  unfold HS.opGenhp
+  refine typed_withMap hg hw fun n m hn hget hok hm => ?_
+  op_split
+  all_goals typed_leaf
+
+theorem Typed.opInterp {w : World} (hg : w.Good) (hw : w.Typed) (a : Args) : (HS.opInterp w a).1.Typed := by
+  unfold HS.opInterp
+  refine typed_withMap hg hw fun n m hn hget hok hm => ?_
+  op_split
+  all_goals typed_leaf
+
+theorem Typed.opHpxwrite {w : World} (hg : w.Good) (hw : w.Typed) (a : Args) : (HS.opHpxwrite w a).1.Typed := by
+  unfold HS.opHpxwrite
+  refine typed_withMap hg hw fun n m hn hget hok hm => ?_
+  op_split
+  all_goals typed_leaf
+
+theorem Typed.opVals {w : World} (hg : w.Good) (hw : w.Typed) (a : Args) : (HS.opVals w a).1.Typed := by
+  unfold HS.opVals
+  refine typed_withMap hg hw fun n m hn hget hok hm => ?_
+  op_split
+  all_goals typed_leaf
+
+theorem Typed.opGet {w : World} (hg : w.Good) (hw : w.Typed) (a : Args) : (HS.opGet w a).1.Typed := by
+  unfold HS.opGet
+  refine typed_withMap hg hw fun n m hn hget hok hm => ?_
+  op_split
+  all_goals typed_leaf
+
+theorem Typed.opValid {w : World} (hg : w.Good) (hw : w.Typed) (a : Args) : (HS.opValid w a).1.Typed := by
+  unfold HS.opValid
+  refine typed_withMap hg hw fun n m hn hget hok hm => ?_
+  op_split
+  all_goals typed_leaf
+
+theorem Typed.opCovmap {w : World} (hg : w.Good) (hw : w.Typed) (a : Args) : (HS.opCovmap w a).1.Typed := by
+  unfold HS.opCovmap
+  refine typed_withMap hg hw fun n m hn hget hok hm => ?_
+  op_split
+  all_goals typed_leaf
+
+theorem Typed.opVpsc {w : World} (hg : w.Good) (hw : w.Typed) (a : Args) : (HS.opVpsc w a).1.Typed := by
+  unfold HS.opVpsc
+  refine typed_withMap hg hw fun n m hn hget hok hm => ?_
+  op_split
+  all_goals typed_leaf
+
+theorem Typed.opCovmask {w : World} (hg : w.Good) (hw : w.Typed) (a : Args) : (HS.opCovmask w a).1.Typed := by
+  unfold HS.opCovmask
+  refine typed_withMap hg hw fun n m hn hget hok hm => ?_
+  op_split
+  all_goals typed_leaf
+
+theorem Typed.opDump {w : World} (hg : w.Good) (hw : w.Typed) (a : Args) : (HS.opDump w a).1.Typed := by
+  unfold HS.opDump
+  refine typed_withMap hg hw fun n m hn hget hok hm => ?_
+  op_split
+  all_goals typed_leaf
+
+theorem Typed.opState {w : World} (hg : w.Good) (hw : w.Typed) (a : Args) : (HS.opState w a).1.Typed := by
+  unfold HS.opState
+  refine typed_withMap hg hw fun n m hn hget hok hm => ?_
+  op_split
+  all_goals typed_leaf
+
+theorem Typed.opBad {w : World} (hg : w.Good) (hw : w.Typed) (a : Args) : (HS.opBad w a).1.Typed := by
+  unfold HS.opBad
+  refine typed_withMap hg hw fun n m hn hget hok hm => ?_
+  op_split
+  all_goals typed_leaf
+
+theorem Typed.opNvalid {w : World} (hg : w.Good) (hw : w.Typed) (a : Args) : (HS.opNvalid w a).1.Typed := by
+  unfold HS.opNvalid
+  refine typed_withMap hg hw fun n m hn hget hok hm => ?_
+  op_split
+  all_goals typed_leaf
+
+theorem Typed.opGeom {w : World} (hg : w.Good) (hw : w.Typed) (a : Args) : (HS.opGeom w a).1.Typed := by
+  unfold HS.opGeom
+  refine typed_withMap hg hw fun n m hn hget hok hm => ?_
+  simp only [hn]
+  op_split
+  all_goals first
+    | typed_leaf
+    | (rename_i _ v hv
+       obtain ⟨x, _, hu⟩ := except_bind_ok hv
+       exact hw.put _ (Typed.apiUpdateRanges hm hu))
+    | (rename_i _ v hv
+       obtain ⟨x, _, hu⟩ := except_bind_ok hv
+       exact hw.bind _ ((MapObj.Typed_cache _ _).2 (Typed.apiUpdateRanges ((MapObj.Typed_cache _ _).2 hm) hu)))
+    | (rename_i kind sent hkr _ e he _ v hv
+       have hK : kind.realK := by
+         repeat' (split at hkr)
+         all_goals first
+           | (cases hkr; done)
+           | (cases hkr; trivial)
+           | (cases hkr
+              exact Kind.typed.realK (s := m.sent) (by
+                have := hm; unfold MapObj.Typed at this; rw [‹m.kind = _›] at this; exact this))
+       have hE := Typed.apiMakeEmpty hK he
+       refine hw.bind _ ((MapObj.Typed_cache _ _).2 ?_)
+       split at hv
+       · exact Typed.apiSetBits hE hv
+       · split at hv
+         · exact Typed.apiUpdate hE hv
+         · cases hv)
+
+theorem Typed.opSop {w : World} (hg : w.Good) (hw : w.Typed) (a : Args) : (HS.opSop w a).1.Typed := by
+  unfold HS.opSop
+  refine typed_withMap hg hw fun n m hn hget hok hm => ?_
+  cases hin : a.flag "inplace" <;> simp only [↓reduceIte, Bool.false_eq_true, Bool.false_and, Bool.true_and]
+  all_goals op_split
+  all_goals typed_leaf
+
+theorem Typed.opDrop {w : World} (hg : w.Good) (hw : w.Typed) (a : Args) : (HS.opDrop w a).1.Typed := by
+  unfold HS.opDrop
+  op_split
+  exact ⟨fun e he hev => hw.1 e (List.mem_filter.1 he).1 hev, hw.2.1, hw.2.2⟩
+
+theorem Typed.opReset {w : World} (a : Args) : (HS.opReset w a).1.Typed := World.typed_empty
+
+/-! ### one protocol step, any history -/
+
+theorem Typed.stepArgs {w : World} (hg : w.Good) (hw : w.Typed) (op : String) (a : Args) :
+    (HS.stepArgs w op a).1.Typed := by
+  unfold HS.stepArgs
+  split
+  all_goals with_reducible first
+    | exact hw
+    | exact Typed.opReset a
+    | exact Typed.opCfg hg hw a
+    | exact Typed.opMop hg hw a
+    | exact Typed.opMocread hg hw a
+    | exact Typed.opRead hg hw a
+    | exact Typed.opDor hg hw a
+    | exact Typed.opFromhp hg hw a
+    | exact Typed.opHpxread hg hw a
+    | exact Typed.opCovread hg hw a
+    | exact Typed.opFitsraw hg hw a
+    | exact Typed.opCat hg hw a
+    | exact Typed.opHpximplicit hg hw a
+    | exact Typed.opRand hg hw a
+    | exact Typed.opUpd hg hw a
+    | exact Typed.opUpdr hg hw a
+    | exact Typed.opMask hg hw a
+    | exact Typed.opAstype hg hw a
+    | exact Typed.opPack hg hw a
+    | exact Typed.opBop hg hw a
+    | exact Typed.opInv hg hw a
+    | exact Typed.opBits hg hw a
+    | exact Typed.opCopy hg hw a
+    | exact Typed.opDeg hg hw a
+    | exact Typed.opUpg hg hw a
+    | exact Typed.opSingle hg hw a
+    | exact Typed.opScov hg hw a
+    | exact Typed.opSet hg hw a
+    | exact Typed.opFracdet hg hw a
+    | exact Typed.opChk hg hw a
+    | exact Typed.opInfo hg hw a
+    | exact Typed.opMoc hg hw a
+    | exact Typed.opMeta hg hw a
+    | exact Typed.opGetmeta hg hw a
+    | exact Typed.opWrite hg hw a
+    | exact Typed.opGenhp hg hw a
+    | exact Typed.opInterp hg hw a
+    | exact Typed.opHpxwrite hg hw a
+    | exact Typed.opVals hg hw a
+    | exact Typed.opGet hg hw a
+    | exact Typed.opValid hg hw a
+    | exact Typed.opCovmap hg hw a
+    | exact Typed.opVpsc hg hw a
+    | exact Typed.opCovmask hg hw a
+    | exact Typed.opDump hg hw a
+    | exact Typed.opState hg hw a
+    | exact Typed.opBad hg hw a
+    | exact Typed.opSop hg hw a
+    | exact Typed.opGeom hg hw a
+    | exact Typed.opNvalid hg hw a
+    | exact Typed.opDrop hg hw a
+
+theorem Typed.step {w : World} (hg : w.Good) (hw : w.Typed) (line : String) :
+    (HS.step w line).1.Typed := by
+  unfold HS.step
+  simp only
+  split
+  · exact hw
+  · split
+    · exact hw
+    · exact Typed.stepArgs hg hw _ _
+
+/-- `World.Good` (Lemmas/WFWorld.lean) together with the typing invariant -/
+def World.GoodTyped (w : World) : Prop := w.Good ∧ w.Typed
+
+/-- **every protocol line preserves the typing invariant** -/
+theorem GoodTyped.step {w : World} (hw : w.GoodTyped) (line : String) : (HS.step w line).1.GoodTyped :=
+  ⟨Good.step hw.1 line, Typed.step hw.1 hw.2 line⟩
+
+theorem GoodTyped.foldl_step {w : World} (hw : w.GoodTyped) (lines : List String) :
+    (lines.foldl (fun w l => (HS.step w l).1) w).GoodTyped := by
+  induction lines generalizing w with
+  | nil => exact hw
+  | cons l ls ih => exact ih (GoodTyped.step hw l)
+
+/-- **every world reachable by a protocol history is good and typed** -/
+theorem GoodTyped.runLines (lines : List String) : (HS.runLines lines).GoodTyped :=
+  GoodTyped.foldl_step ⟨World.good_empty, World.typed_empty⟩ lines
+
+theorem Typed.runLines (lines : List String) : (HS.runLines lines).Typed :=
+  (GoodTyped.runLines lines).2
+
+/-- **every map a protocol history can produce (owning or view) is typed, hence `FileTyped`** -/
+theorem reachable_typed (lines : List String) {n : String} {m : MapObj}
+    (h : (HS.runLines lines).get? n = some m) : m.Typed :=
+  (GoodTyped.runLines lines).2.get (GoodTyped.runLines lines).1 h
+
+theorem reachable_fileTyped (lines : List String) {n : String} {m : MapObj}
+    (h : (HS.runLines lines).get? n = some m) : m.FileTyped :=
+  (reachable_typed lines h).fileTyped
+
+/-! ### observations on a looked-up map (for the protocol-level round trip of Props/C03.lean) -/
+
+theorem stepArgs_vals (w : World) (a : Args) : HS.stepArgs w "vals" a = HS.opVals w a := by rfl
+theorem stepArgs_valid (w : World) (a : Args) : HS.stepArgs w "valid" a = HS.opValid w a := by rfl
+
+theorem opVals_eq (w : World) (a : Args) (n : String) (rest : List String) (m : MapObj)
+    (hpos : a.pos = n :: rest) (hget : w.get? n = some m) :
+    HS.opVals w a = (w, showVals ((List.range m.npix).map m.abs)) := by
+  unfold HS.opVals withMap
+  simp only [hpos, hget]
+
+theorem opValid_eq (w : World) (a : Args) (n : String) (rest : List String) (m : MapObj)
+    (hpos : a.pos = n :: rest) (hget : w.get? n = some m) :
+    HS.opValid w a = (match validPixels m.c m.vc m.st with
+      | some l => (w, showList toString (l.mergeSort (· ≤ ·)))
+      | none => (w, errLine .index)) := by
+  unfold HS.opValid withMap
+  simp only [hpos, hget]
+  cases validPixels m.c m.vc m.st <;> rfl
+
+/-! ### the invariant is not vacuous, and not implied by `World.Good` -/
+
+/-- a good world that is not typed: `World.Good` constrains a numeric plain map neither in its
+    dtype nor in its sentinel (the objects of Lemmas/ApiRoundTrip.lean) -/
+example : ¬ RoundTrip.boolSentMap.Typed ∧ ¬ RoundTrip.oddDtMap.Typed ∧ RoundTrip.boolSentMap.Ok :=
+  ⟨fun h => RoundTrip.boolSentMap_not_typed h.fileTyped,
+   fun h => RoundTrip.oddDtMap_not_typed h.fileTyped, RoundTrip.boolSentMap_ok⟩
 
 end HS
